@@ -569,6 +569,24 @@ func randomHexKey(fn *ssa.Function, v ssa.Value, at ssa.Instruction, depth int) 
 				continue
 			}
 			n, ok := constSliceLen(seed)
+			if !ok {
+				// make([]byte, n) with n a parameter that is a constant at every static call site
+				if ms, isMk := seed.(*ssa.MakeSlice); isMk && theCtx != nil {
+					if _, isP := strip(ms.Len).(*ssa.Parameter); isP {
+						ok, n = true, int64(1<<30)
+						for _, u := range theCtx.upValues(ms.Len, 0) {
+							k, isC := constInt(u)
+							if !isC {
+								ok = false
+								break
+							}
+							if k < n {
+								n = k
+							}
+						}
+					}
+				}
+			}
 			if !ok || n < 16 {
 				return false, "seed shorter than 16 bytes"
 			}
